@@ -340,8 +340,8 @@ def plan(tier):
             shards.append({'model': spec.name, 'kind': 'seq', 'first': first,
                            'len': SEQ_LEN[tier]})
         mlen = MULTI_LEN[tier]
-        if spec.names and tier == 'quick':
-            mlen = 2                       # xlsx-loaded model is slow to build
+        if (spec.names or spec.name == 'longrange') and tier == 'quick':
+            mlen = 2      # slow to build (xlsx) / 110 evaluations per evaluate
         for e in range(3):
             for first in range(len(cells)):
                 shards.append({'model': spec.name, 'kind': 'multi',
